@@ -32,7 +32,7 @@ const c35Thresh = 48 // VGI_RPC_SHM_MIN_BATCH_BYTES for this process (read once 
 
 func init() {
 	os.Setenv("VGI_RPC_SHM_MIN_BATCH_BYTES", strconv.Itoa(c35Thresh))
-	Register("C35", "ptr: boundary classes of offset/length strings first (empty, sign, space, exponent, 2^63, 2^64-1, 2^64, header offsets, off+len=size, size+1, uint64 wrap, negative length), then random templates around real slots, duplicate/missing keys, nil/closed segment, non-pointer batches; rt: every layout (fast / stripped top-level dictionary / full nested dictionary) x fits / does not fit / nil segment / zero rows / below the size gate, then random type trees; skip: real IPC streams, truncated, byte-flipped, random, flatbuffers vtable boundaries; hist: histories of 2..4 writes on ONE segment read back through the pointer path after the whole history - boundary pairs of distinct schemas with identical arrow fingerprint first (field / schema metadata, list child name / nullability / metadata, map key and value names, struct child metadata; both orders, A-B-A, reuse of the same schema object, interleaved dictionary layouts, a segment that fills up), then random type trees with random cosmetic perturbations; read-back equality = Schema.Equal + strict schema rendering (names, nullability, metadata at every depth) + RecordEqual. Non-trivial = ptr case that reaches offset parsing, rt case that was replaced, skip case of >= 8 bytes, hist case with >= 2 replaced writes; distinct = distinct input JSON",
+	Register("C35", "ptr: boundary classes of offset/length strings first (empty, sign, space, exponent, 2^63, 2^64-1, 2^64, header offsets, off+len=size, size+1, uint64 wrap, negative length), then random templates around real slots, duplicate/missing keys, nil/closed segment, non-pointer batches; rt: every layout (fast / stripped top-level dictionary / full nested dictionary) x fits / does not fit / nil segment / zero rows / below the size gate, then random type trees; skip: real IPC streams, truncated, byte-flipped, random, flatbuffers vtable boundaries; hist: histories of 2..4 writes on ONE segment read back through the pointer path after the whole history - boundary pairs of distinct schemas with identical arrow fingerprint first (field / schema metadata, list child name / nullability / metadata, map key and value names, struct child metadata; both orders, A-B-A, reuse of the same schema object, interleaved dictionary layouts, a segment that fills up), then random type trees with random cosmetic perturbations; read-back equality = Schema.Equal + strict schema rendering (names, nullability, metadata at every depth) + RecordEqual. every ptr / rt pointer is resolved TWICE on the same object (slot not freed), ptr cases also through an alias batch sharing the arrow.Metadata object, the pointer batch's own metadata is compared before/after, hist cases report the second read. Non-trivial = ptr case that reaches offset parsing, rt case that was replaced, skip case of >= 8 bytes, hist case with >= 2 replaced writes; distinct = distinct input JSON",
 		c35Gen, c35Run)
 }
 
@@ -188,6 +188,19 @@ func c35Gen(r *rand.Rand, n int, tier string) []c35In {
 	var out []c35In
 	ptr := func(w []c35Batch, md []c35KV) c35In { return c35In{Kind: "ptr", Data: 1 << 16, Written: w, MD: md} }
 	one := []c35Batch{c35Simple}
+	// --- the pointer batch is an input: shapes on which an in-place rewrite of its metadata shows
+	//     (every ptr case resolves the same object twice and then an alias sharing its metadata) ---
+	for _, w := range [][]c35Batch{{c35Simple}, {c35Top}, {c35Nested}} {
+		okO, okL := c35Base("off0", 0), c35Base("len0", 0)
+		rid := c35KV{"vgi_rpc.request_id", c35Lit("r-1")}
+		out = append(out,
+			ptr(w, []c35KV{{c35KOff, okO}, {c35KLen, okL}, rid}),                                  // [off,len,x]   -> [x,src,x]
+			ptr(w, []c35KV{rid, {c35KOff, okO}, {c35KLen, okL}}),                                  // [x,off,len]   -> [x,src,len]
+			ptr(w, []c35KV{{c35KOff, okO}, rid, {c35KLen, okL}, {"z", c35Lit("")}}),               // interleaved
+			ptr(w, []c35KV{{c35KLen, okL}, {c35KOff, okO}}),                                       // [len,off]     -> [src,off]
+			ptr(w, []c35KV{{c35KOff, okO}, {c35KLen, okL}, {c35KOff, c35Lit("x")}, {"a", c35Lit("1")}, {"b", c35Lit("2")}}), // duplicate key later
+			ptr(w, []c35KV{{c35KOff, okO}, {c35KLen, okL}, {c35KSrc, c35Lit("/old")}}))
+	}
 	// --- boundary pointer classes on each layout -----------------------------
 	for _, w := range [][]c35Batch{{c35Simple}, {c35Top}, {c35Nested}} {
 		out = append(out, ptr(w, c35Ptr(c35Base("off0", 0), c35Base("len0", 0))))
@@ -571,7 +584,11 @@ func c35RunPtr(in c35In) CaseOut {
 	spec := in.Written[in.SchemaOf]
 	spec.Rows, spec.MD = in.Rows, nil
 	body := spec.build()
-	pb := array.NewRecordBatchWithMetadata(body.Schema(), body.Columns(), body.NumRows(), arrow.NewMetadata(keys, vals))
+	// ONE arrow.Metadata object; two pointer batches share it (arrow.Metadata accessors do not copy)
+	shared := arrow.NewMetadata(keys, vals)
+	pb := array.NewRecordBatchWithMetadata(body.Schema(), body.Columns(), body.NumRows(), shared)
+	alias := array.NewRecordBatchWithMetadata(body.Schema(), body.Columns(), body.NumRows(), shared)
+	wasPtr := vgirpc.IsShmPointerBatch(pb)
 	name := seg.Name()
 	// input fact about the segment contents: are the 4 bytes after the pointer schema's slot zero?
 	// (a stripped region extended past its slot is followed by the synthesized EOS, so the bytes
@@ -588,6 +605,16 @@ func c35RunPtr(in c35In) CaseOut {
 		seg.Close()
 	}
 	ro := c35Resolve(pb, useSeg, recs[in.SchemaOf], false)
+	// the pointer batch is an input: its own metadata after the resolve, then the same object
+	// again, then the alias that shares its metadata object (the slot is never freed here)
+	mdK, mdV := c35MDOf(pb.(arrow.RecordBatchWithMetadata).Metadata())
+	stillPtr := vgirpc.IsShmPointerBatch(pb) == wasPtr
+	again := c35Resolve(pb, useSeg, recs[in.SchemaOf], false)
+	aliasR := c35Resolve(alias, useSeg, recs[in.SchemaOf], false)
+	if !stillPtr { // IsShmPointerBatch flipped: make it visible even if the metadata listing looks the same
+		mdK = append(mdK, "<IsShmPointerBatch changed>")
+		mdV = append(mdV, "")
+	}
 	// the segment must stay usable (no leaked lock) after whatever happened
 	after := true
 	if !in.Closed {
@@ -606,8 +633,14 @@ func c35RunPtr(in c35In) CaseOut {
 	slots := List([]string{"(" + Z(int64(nums["off"+js])) + ", " + Z(int64(nums["len"+js])) + ", " + Bool(tailZero) + ")"})
 	coqIn := App("C35.IPtr", App("C35.Build_ptr_case", Bool(!in.NilSeg), Bool(in.Closed), Z(int64(size)), B(name),
 		Z(int64(in.Rows)), c35MD(keys, vals), ListOf(spec.types(), func(t *c35Ty) string { return t.coq() }), slots))
-	coqObs := App("C35.OPtr", ro.coq(), Bool(after))
+	coqObs := App("C35.OPtr", ro.coq(), Bool(after), again.coq(), aliasR.coq(), c35MD(mdK, mdV))
 	tags := []string{"ptr", "ptr-" + ro.Kind, "layout-" + c35Layout(body.Schema())}
+	if fmt.Sprint(mdK, mdV) != fmt.Sprint(keys, vals) {
+		tags = append(tags, "ptr-input-metadata-rewritten")
+	}
+	if again.Kind != ro.Kind || aliasR.Kind != ro.Kind {
+		tags = append(tags, "ptr-second-resolve-differs")
+	}
 	if in.NilSeg {
 		tags = append(tags, "nil-seg")
 	}
@@ -630,7 +663,8 @@ func c35RunPtr(in c35In) CaseOut {
 		tags = append(tags, "note-error-only-thanks-to-recover")
 	}
 	return CaseOut{Coq: Pair(coqIn, coqObs), Tags: tags, Nontrivial: ro.Kind != "OUnchanged",
-		Obs: map[string]any{"resolve": ro, "after_ok": after, "keys": keys, "vals": vals, "size": size}}
+		Obs: map[string]any{"resolve": ro, "after_ok": after, "keys": keys, "vals": vals, "size": size,
+			"resolve_again": again, "resolve_alias": aliasR, "md_after_keys": mdK, "md_after_vals": mdV}}
 }
 
 func c35Layout(s *arrow.Schema) string {
@@ -687,6 +721,7 @@ func c35RunRt(in c35In) CaseOut {
 	var stored []byte
 	prows := int64(0)
 	ro := c35Robs{Kind: "OUnchanged"}
+	again := c35Robs{Kind: "OUnchanged"}
 	if werr == nil {
 		if replaced {
 			prows = out.NumRows()
@@ -701,7 +736,29 @@ func c35RunRt(in c35In) CaseOut {
 		} else if out != rec {
 			prows = -2 // not replaced must hand back the very same batch
 		}
+		var bk, bv []string
+		if m, ok := out.(arrow.RecordBatchWithMetadata); ok {
+			bk, bv = c35MDOf(m.Metadata())
+		}
 		ro = c35Resolve(out, useSeg, rec, true)
+		if m, ok := out.(arrow.RecordBatchWithMetadata); ok {
+			ak, av := c35MDOf(m.Metadata())
+			if fmt.Sprint(ak, av) != fmt.Sprint(bk, bv) {
+				prows = -4 // the batch handed to ResolveShmBatch was rewritten
+			}
+		}
+		again = c35Resolve(out, useSeg, rec, true) // same pointer object, slot not freed
+	}
+	if m, ok := rec.(arrow.RecordBatchWithMetadata); ok && werr == nil {
+		ak, av := c35MDOf(m.Metadata())
+		if len(ak) != len(in.Batch.MD) {
+			prows = -3 // MaybeWriteToShm rewrote its input batch's metadata
+		}
+		for i := range in.Batch.MD {
+			if i < len(ak) && (ak[i] != in.Batch.MD[i][0] || av[i] != in.Batch.MD[i][1]) {
+				prows = -3
+			}
+		}
 	}
 	if alloc == "None" {
 		// the model reads the encoder's bytes only when a region was allocated; keep the Coq term small
@@ -715,7 +772,7 @@ func c35RunRt(in c35In) CaseOut {
 	coqIn := App("C35.IRt", App("C35.Build_rt_case", Bool(!in.NilSeg), Z(rec.NumRows()), Z(vgirpc.VerifC35BatchBufferSize(rec)),
 		Z(vgirpc.VerifC35MinBatchBytes()), ListOf(ts, func(t *c35Ty) string { return t.coq() }), c35MD(keys, vals),
 		Z(int64(seg.Size())), B(seg.Name()), alloc, B(string(full)), B(string(so))))
-	coqObs := App("C35.ORt", Bool(replaced), Bool(werr != nil), Z(prows), c35MD(pk, pv), B(string(stored)), ro.coq())
+	coqObs := App("C35.ORt2", App("C35.ORt", Bool(replaced), Bool(werr != nil), Z(prows), c35MD(pk, pv), B(string(stored)), ro.coq()), again.coq())
 	tags := []string{"rt", "rt-layout-" + c35Layout(rec.Schema()), "rt-" + ro.Kind}
 	if replaced {
 		tags = append(tags, "rt-replaced")
@@ -730,7 +787,7 @@ func c35RunRt(in c35In) CaseOut {
 		e = werr.Error()
 	}
 	return CaseOut{Coq: Pair(coqIn, coqObs), Tags: tags, Nontrivial: replaced,
-		Obs: map[string]any{"replaced": replaced, "werr": e, "ptr_keys": pk, "ptr_vals": pv, "stored_len": len(stored), "full_len": len(full), "resolve": ro}}
+		Obs: map[string]any{"replaced": replaced, "werr": e, "ptr_keys": pk, "ptr_vals": pv, "stored_len": len(stored), "full_len": len(full), "resolve": ro, "resolve_again": again, "prows": prows}}
 }
 
 func c35RunSkip(in c35In) CaseOut {
@@ -743,7 +800,7 @@ func c35RunSkip(in c35In) CaseOut {
 	func() {
 		defer func() {
 			if rv := recover(); rv != nil {
-				coqObs, tag = "(C35.OPtr C35.OPanic false)", "skip-panic"
+				coqObs, tag = "(C35.OPtr C35.OPanic false C35.OPanic C35.OPanic [])", "skip-panic"
 			}
 		}()
 		k, e := vgirpc.VerifC35SkipOneIPCMessage(buf)
@@ -903,7 +960,13 @@ func c35RunHist(in c35In) CaseOut {
 		Got       string  `json:"got,omitempty"`
 	}
 	obs := make([]wo, n)
-	nrep, collide, wrongSchema := 0, false, false
+	nrep, collide, wrongSchema, secondDiffers := 0, false, false, false
+	firstPass := make([]c35Robs, n)
+	for k := range in.Hist { // first pass over every pointer of the history
+		if werrs[k] == nil {
+			firstPass[k] = c35Resolve(outs[k], seg, recs[k], true)
+		}
+	}
 	for k := range in.Hist {
 		var stored []byte
 		ro := c35Robs{Kind: "OPanic", Err: fmt.Sprint(werrs[k])}
@@ -912,7 +975,11 @@ func c35RunHist(in c35In) CaseOut {
 				stored = vgirpc.VerifC35Bytes(seg, allocs[k][0], int(allocs[k][1]))
 				nrep++
 			}
-			ro = c35Resolve(outs[k], seg, recs[k], true)
+			ro = firstPass[k]
+			if again := c35Resolve(outs[k], seg, recs[k], true); fmt.Sprint(again) != fmt.Sprint(ro) {
+				ro = again // a second consumer of the same pointer must read the same batch: report what it got
+				secondDiffers = true
+			}
 		}
 		obs[k] = wo{Replaced: replaced[k], StoredLen: len(stored), Resolve: ro, Wrote: c35SchemaString(schemas[k])}
 		if ro.Kind == "OResolved" && !ro.Eq {
@@ -936,6 +1003,9 @@ func c35RunHist(in c35In) CaseOut {
 	}
 	if wrongSchema {
 		tags = append(tags, "hist-read-back-differs")
+	}
+	if secondDiffers {
+		tags = append(tags, "hist-second-read-differs")
 	}
 	for _, w := range in.Hist {
 		if w.ReuseOf > 0 {
